@@ -170,11 +170,11 @@ add_binfunc!(add_int_pow, pow, X_INT, Int, X_INT, |a: &LazyBigint,
             rt.clone(),
         )?)
     } else {
-        // bytes the result needs; an exponent (or product) beyond usize is more than any limit
+        // bytes the result needs at least (|a| >= 2^(bits-1)); an exponent (or product) beyond usize is more than any limit
         let needed = b
             .to_usize()
             .zip(a.bits().to_usize())
-            .and_then(|(b, a_bits)| (a_bits / 8).checked_mul(b));
+            .and_then(|(b, a_bits)| a_bits.saturating_sub(1).checked_mul(b).map(|bits| bits / 8));
         let trivial_base = a.is_zero() || a.is_one() || (-a.clone()).is_one();
         if !trivial_base {
             rt.can_allocate(needed.unwrap_or(usize::MAX / 2))?;
